@@ -11,6 +11,7 @@ import io
 import json
 import os
 import shutil
+import sys
 import tempfile
 from pathlib import Path
 
@@ -67,6 +68,10 @@ META = {
 }
 
 TARGET, TMP = 'T', 'T.tmp'
+
+# the real functions, taken before anything is replaced: the file layer itself and everything the harness does on its own
+# behalf (snapshots, preparing a directory) use these
+_open, _rename, _replace, _remove, _unlink = builtins.open, os.rename, os.replace, os.remove, os.unlink
 
 
 # ----------------------------------------------------------------------------------------
@@ -140,7 +145,8 @@ class FaultFS:
 
     # -- helpers
     def canon(self, p):
-        p = os.path.relpath(str(p), self.pdir)
+        p = str(p)
+        p = p[len(self.pdir) + 1:] if p.startswith(self.pdir + os.sep) else os.path.relpath(p, self.pdir)
         if p == self.tname:
             return TARGET
         if p == self.tname + '.tmp':
@@ -149,14 +155,15 @@ class FaultFS:
 
     def content(self, name):
         try:
-            with builtins.open(os.path.join(self.pdir, name), 'rb') as f:
+            with _open(os.path.join(self.pdir, name), 'rb') as f:
                 return f.read()
         except OSError:
             return None
 
     def state(self):
+        names = {self.tname: TARGET, self.tname + '.tmp': TMP}
         try:
-            listing = sorted(self.canon(os.path.join(self.pdir, x)) for x in os.listdir(self.pdir))
+            listing = sorted(names.get(x, x) for x in os.listdir(self.pdir))
         except OSError:
             listing = []
         return (self.content(self.tname), self.content(self.tname + '.tmp'), listing)
@@ -167,11 +174,11 @@ class FaultFS:
             path = os.path.join(self.pdir, name)
             if c is None:
                 try:
-                    os.remove(path)
+                    _remove(path)
                 except OSError:
                     pass
             else:
-                with builtins.open(path, 'wb') as f:
+                with _open(path, 'wb') as f:
                     f.write(c)
 
     def _event(self, ev, action, partial=None):
@@ -204,21 +211,39 @@ class FaultFS:
         self.reads.append(['makedirs', self.canon(p)])
         return os.makedirs(p, mode, exist_ok)
 
-    def rename(self, a, b):
-        return self._event(['rename', self.canon(a), self.canon(b)], lambda: os.rename(a, b))
+    def inside(self, p):
+        try:
+            return os.fspath(p).startswith(self.pdir + os.sep)
+        except TypeError:      # a file descriptor, bytes ...
+            return False
 
-    def remove(self, p):
-        return self._event(['remove', self.canon(p)], lambda: os.remove(p))
+    def rename(self, a, b, **kw):
+        """os.rename / os.replace (and with them pathlib's rename / replace, shutil.move within a file system)"""
+        if not (self.inside(a) or self.inside(b)):
+            return _rename(a, b, **kw)
+        return self._event(['rename', self.canon(a), self.canon(b)], lambda: _rename(a, b, **kw))
+
+    def remove(self, p, **kw):
+        """os.remove / os.unlink (and pathlib's unlink)"""
+        if not self.inside(p):
+            return _remove(p, **kw)
+        return self._event(['remove', self.canon(p)], lambda: _remove(p, **kw))
+
+    replace = rename
+    unlink = remove
 
     def __getattr__(self, name):
         return getattr(os, name)
 
-    # -- `open`
-    def open(self, p, mode='r', **kwds):
-        if 'w' in mode or 'a' in mode or '+' in mode:
-            return self._event(['open', self.canon(p)], lambda: self._wfile(p, mode, kwds))
+    # -- `open` (the builtin, io.open and with them pathlib's open / write_text / write_bytes, shutil's copies)
+    def open(self, p, mode='r', buffering=-1, encoding=None, errors=None, newline=None, closefd=True, opener=None):
+        if not self.inside(p):
+            return _open(p, mode, buffering, encoding, errors, newline, closefd, opener)
+        if 'w' in mode or 'a' in mode or '+' in mode or 'x' in mode:
+            return self._event(['open', self.canon(p)],
+                               lambda: self._wfile(p, mode, {'encoding': encoding, 'errors': errors, 'newline': newline}))
         self.reads.append(['open', self.canon(p)])
-        return builtins.open(p, mode, **kwds)
+        return _open(p, mode, buffering, encoding, errors, newline, closefd, opener)
 
     def _wfile(self, p, mode, kwds):
         """what the builtin `open` returns for writing - Python's own text layer and buffered writer - on a raw file whose
@@ -269,6 +294,48 @@ class _Raw(io.FileIO):
             return self.fs._event(['close', self.cname], lambda: None)
         finally:
             io.FileIO.close(self)      # a close that reports an error has released the descriptor all the same
+
+
+class InstrSnaps:
+    """crash points at the granularity of the byte code of frappy/persistent.py, whatever API the code uses for its file
+    operations: while active, the content of the persistent file is read (independent descriptor) before every instruction
+    executed in a frame of that file; `seen` keeps the sequence of distinct contents with the line where each was first met.
+    A process killed between two instructions leaves exactly one of these on disk."""
+
+    def __init__(self, fs, fname, off=False):
+        self.fs, self.fname, self.off = fs, fname, off
+        self.seen = []
+        self.path = None if off else os.path.join(fs.pdir, fs.tname)
+        self.key = 0
+
+    def __enter__(self):
+        if not self.off:
+            self.prev = sys.gettrace()
+            sys.settrace(self._global)
+        return self
+
+    def __exit__(self, *a):
+        if not self.off:
+            sys.settrace(self.prev)
+
+    def _global(self, frame, event, arg):
+        if frame.f_code.co_filename == self.fname:
+            frame.f_trace_opcodes = True
+            return self._local
+        return None
+
+    def _local(self, frame, event, arg):
+        try:
+            st = os.stat(self.path)
+            key = (st.st_ino, st.st_size, st.st_mtime_ns)
+        except OSError:
+            key = None
+        if key != self.key:      # the content is read only when inode, size or modification time have changed
+            self.key = key
+            c = self.fs.content(self.fs.tname)
+            if not self.seen or self.seen[-1][1] != c:
+                self.seen.append((frame.f_lineno, c))
+        return self._local
 
 
 BUFFERINGS = [None, None, None, None, [16, 1], [16, 1], [64, 8], [64, 8], [256, 64], [1, 1]]
@@ -492,9 +559,16 @@ class Bench:
         fp.open = self.fs.open
         fp.os = self.fs
         mb.time = _Clock(self.saved[2])
+        # the same layer under every other way to the file system: the builtin open, io.open, os.rename / replace / remove /
+        # unlink as looked up in their modules (pathlib, shutil ... find them there); paths outside the scratch directory pass through
+        builtins.open = io.open = self.fs.open
+        os.rename = os.replace = self.fs.rename
+        os.remove = os.unlink = self.fs.remove
 
     def close(self):
         fp, mb = self.fp, self.mb
+        builtins.open = io.open = _open
+        os.rename, os.replace, os.remove, os.unlink = _rename, _replace, _remove, _unlink
         if self.saved[0] is None:
             fp.__dict__.pop('open', None)
         else:
@@ -504,7 +578,10 @@ class Bench:
         self.gc._config = self.saved[3]
         shutil.rmtree(self.root, ignore_errors=True)
 
-    def create(self, spec, fault=None):
+    def instr(self):
+        return InstrSnaps(self.fs, self.fp.__file__)
+
+    def create(self, spec, fault=None, trace=False):
         """-> (module or None, exception class name or None)"""
         cls = make_class(spec)
         cfg = {'description': ''}
@@ -514,8 +591,16 @@ class Bench:
             if 'cfgflag' in p:
                 cfg.setdefault(p['name'], {})['persistent'] = p['cfgflag']
         self.fs.reset(fault)
+        self.created_instr = []
         try:
-            m = cls('m', _Logger(), cfg, _Srv())
+            if trace:
+                with self.instr() as tr:
+                    try:
+                        m = cls('m', _Logger(), cfg, _Srv())
+                    finally:
+                        self.created_instr = tr.seen
+            else:
+                m = cls('m', _Logger(), cfg, _Srv())
         except Exception as e:  # pylint: disable=broad-except
             return None, type(e).__name__
         except RecursionError:
@@ -612,9 +697,10 @@ def run_impl(spec, case, trials=True, crash_budget=None, rng=None):
         init = case.get('file')
         fs.set_state(None if init is None else bytes.fromhex(init), None if case.get('stale') is None else bytes.fromhex(case['stale']))
         pre = fs.state()
-        m, exc = bench.create(spec, case.get('fault'))
+        m, exc = bench.create(spec, case.get('fault'), trace=True)
         rec = step_record(bench, m, exc)
         rec['pre'] = pre
+        rec['instr'] = bench.created_instr
         out['steps'].append(rec)
         if m is None:
             return out
@@ -630,12 +716,14 @@ def run_impl(spec, case, trials=True, crash_budget=None, rng=None):
             m.wlog = []
             fs.reset(act.get('fault'))
             exc = None
-            try:
-                do_action(m, spec, act)
-            except Exception as e:  # pylint: disable=broad-except
-                exc = type(e).__name__
+            with bench.instr() as tr:
+                try:
+                    do_action(m, spec, act)
+                except Exception as e:  # pylint: disable=broad-except
+                    exc = type(e).__name__
             rec = step_record(bench, m, exc)
             rec['pre'] = pre
+            rec['instr'] = tr.seen
             rec['data'] = export_data(m)
             out['datas'].append(rec['data'])
             out['steps'].append(rec)
@@ -674,11 +762,14 @@ def run_impl(spec, case, trials=True, crash_budget=None, rng=None):
                         m.paramCallbacks = {n: list(cbs) for n, cbs in callbacks.items()}
                         fs.reset({'idx': k, 'part': part, 'sticky': sticky, 'cleanup': cleanup})
                         e1 = None
-                        try:
-                            trigger(True)
-                        except Exception as e:  # pylint: disable=broad-except
-                            e1 = type(e).__name__
+                        # instruction-level crash points: for the plain variant of each fault (they cost a traced run)
+                        with (bench.instr() if (part, sticky, cleanup) == variants[0] else InstrSnaps(None, None, off=True)) as tr:
+                            try:
+                                trigger(True)
+                            except Exception as e:  # pylint: disable=broad-except
+                                e1 = type(e).__name__
                         t1 = step_record(bench, m, e1)
+                        t1['instr'] = tr.seen
                         fs.reset(None)
                         e2 = None
                         try:
@@ -1183,6 +1274,9 @@ def check_case(ctx, res, spec, case, quick_crash=3, kind='history'):
                          'snaps': [hexo(s[0]) for s in rec['snaps']]})
             tags.append(('snap', ('step', i)))
             res.traces += 1
+            reqs.append({'p': 'C17', 'k': 'judge_snapshots', 'old': hexo(rec['pre'][0]), 'new': new.hex(),
+                         'snaps': [hexo(c) for _, c in rec.get('instr', [])]})
+            tags.append(('instr', ('step', i)))
             reqs.append({'p': 'C17', 'k': 'judge_litter', 'target': TARGET, 'listing': litter_listing(rec)})
             tags.append(('litter', ('step', i)))
     # ---- fork trials
@@ -1191,6 +1285,9 @@ def check_case(ctx, res, spec, case, quick_crash=3, kind='history'):
         reqs.append({'p': 'C17', 'k': 'judge_snapshots', 'old': hexo(t['pre'][0]), 'new': new.hex(),
                      'snaps': [hexo(s[0]) for s in t['first']['snaps']]})
         tags.append(('snap', ('trial', j)))
+        reqs.append({'p': 'C17', 'k': 'judge_snapshots', 'old': hexo(t['pre'][0]), 'new': new.hex(),
+                     'snaps': [hexo(c) for _, c in t['first'].get('instr', [])]})
+        tags.append(('instr', ('trial', j)))
         reqs.append({'p': 'C17', 'k': 'judge_litter', 'target': TARGET, 'listing': litter_listing(t['first'])})
         tags.append(('litter', ('trial', j)))
         reqs.append({'p': 'C17', 'k': 'judge_retry', 'new': new.hex(), 'mid': hexo(t['first']['target']),
@@ -1305,6 +1402,13 @@ def check_case(ctx, res, spec, case, quick_crash=3, kind='history'):
             sig = 'C17:file-empty' if snap == b'' else 'C17:file-partial-or-foreign'
             res.violations.append({'sig': sig, 'what': f'after operation {a["bad"]} ({rec["evs"][a["bad"]][:2]}) of a save the '
                                    f'persistent file holds neither the old nor the new snapshot: {snap[:80]!r}',
+                                   'case': dict(full, where=where)})
+        elif tag == 'instr' and a['bad'] is not None:
+            rec = steps[where[1]] if where[0] == 'step' else impl['trials'][where[1]]['first']
+            line, snap = rec['instr'][a['bad']]
+            res.violations.append({'sig': 'C17:file-empty' if snap == b'' else 'C17:file-partial-or-foreign',
+                                   'what': f'between two instructions of frappy/persistent.py (line {line}) the persistent file holds '
+                                           f'neither the old nor the new snapshot: {(snap or b"<no file>")[:80]!r}',
                                    'case': dict(full, where=where)})
         elif tag == 'litter' and not a['ok']:
             rec = steps[where[1]] if where[0] == 'step' else impl['trials'][where[1]]['first']
